@@ -531,6 +531,7 @@ fn cmd_selftest(args: &[String]) -> i32 {
 
 struct Known {
 	property: String,
+	class_prefix: String,
 	class: String,
 	needles: Vec<String>,
 	what: String,
@@ -545,6 +546,7 @@ fn load_known(path: &str) -> Vec<Known> {
 		for f in a {
 			out.push(Known {
 				property: f["property"].as_str().unwrap_or("").to_string(),
+				class_prefix: f["signature"]["class_prefix"].as_str().unwrap_or("").to_string(),
 				class: f["signature"]["class"].as_str().unwrap_or("").to_string(),
 				needles: f["signature"]["detail_contains"]
 					.as_array()
@@ -562,7 +564,7 @@ fn matches_known<'a>(known: &'a [Known], v: &Violation) -> Option<&'a Known> {
 	known.iter().find(|k| {
 		k.status == "known" &&
 			k.property == v.prop &&
-			k.class == v.class &&
+			(if k.class_prefix.is_empty() { k.class == v.class } else { v.class.starts_with(k.class_prefix.as_str()) }) &&
 			k.needles.iter().all(|n| v.detail.contains(n.as_str()))
 	})
 }
@@ -663,6 +665,8 @@ fn cmd_check(args: &[String]) -> i32 {
 	let mut cross: BTreeMap<String, u64> = BTreeMap::new();
 	let mut seen_own: HashSet<String> = HashSet::new();
 	let mut exit = 0;
+	let mut processed_own = 0;
+	let mut confirmed_known: HashSet<String> = HashSet::new();
 	let base = format!("{}/min", scratch_root());
 	for v in &viols {
 		let vp = v["violation"]["property"].as_str().unwrap_or("").to_string();
@@ -686,13 +690,27 @@ fn cmd_check(args: &[String]) -> i32 {
 			detail: v["violation"]["detail"].as_str().unwrap_or("").to_string(),
 			op_index: v["violation"]["op_index"].as_u64().map(|x| x as usize).unwrap_or(usize::MAX),
 		};
+		if confirmed_known.contains(&vc) {
+			continue
+		}
 		// confirm in this (fresh) process first
 		let first = run_once(&cfg, &ops, &base);
 		let Some(confirmed) = same_class(&first, &vp, &vc) else {
 			harness_errors.push(format!("violation {vp}/{vc} of run seed {run_seed} did not reproduce in a fresh process"));
 			continue
 		};
-		let mbudget = if tier_s == "quick" { 250 } else { 1500 };
+		// The minimiser only accepts candidates with the same (property, class); a signature over
+		// class and detail needles that already matches is therefore decided here.
+		if let Some(k) = matches_known(&known, &confirmed) {
+			known_lines.insert(format!("KNOWN-FINDING: property={} {}", k.property, k.what));
+			confirmed_known.insert(vc.clone());
+			continue
+		}
+		if processed_own >= 6 {
+			continue
+		}
+		processed_own += 1;
+		let mbudget = if tier_s == "quick" { 150 } else { 1500 };
 		let (mcfg, mops, mv, used) = minimise(&cfg, &ops, &confirmed, mbudget, &base);
 		// replay the minimised list once more; must hit the same class
 		let again = run_once(&mcfg, &mops, &base);
